@@ -108,6 +108,8 @@ type traceSum struct {
 	steps           uint64
 	maxDepth        int
 	oog             bool // some frame failed with an out-of-gas class error (incl. gas overflow, code-store OOG)
+	plainOOG        bool // ... with out-of-gas or code-store out-of-gas proper (depends on the gas schedule)
+	uovf            bool // ... with the uint64 gas / memory-size overflow error (an arithmetic fact, independent of the gas supplied)
 	excluded        bool // an opcode with cmpNoCrash was fetched (0x44, 0x45, GAS)
 	precompile      bool // a CALL-family op addressed 0x01..0x09
 	bigCode         bool // a CREATE frame returned more than 24576 bytes (MaxCodeSize differs: 39231 vs 24576)
@@ -395,6 +397,24 @@ type ktracer struct {
 	env *kvm.KVM
 }
 
+func kNote(t *traceSum, err error) {
+	t.oog = true
+	if err == kvm.ErrGasUintOverflow {
+		t.uovf = true
+	} else {
+		t.plainOOG = true
+	}
+}
+
+func gNote(t *traceSum, err error) {
+	t.oog = true
+	if err == gvm.ErrGasUintOverflow {
+		t.uovf = true
+	} else {
+		t.plainOOG = true
+	}
+}
+
 func kIsOOG(err error) bool {
 	return err == kvm.ErrOutOfGas || err == kvm.ErrGasUintOverflow || err == kvm.ErrCodeStoreOutOfGas
 }
@@ -405,7 +425,7 @@ func (k *ktracer) CaptureEnter(typ kvm.OpCode, from kcommon.Address, to kcommon.
 }
 func (k *ktracer) CaptureExit(output []byte, gasUsed uint64, err error) {
 	if err != nil && kIsOOG(err) {
-		k.t.oog = true
+		kNote(k.t, err)
 	}
 	switch err {
 	case kvm.ErrCodeStoreOutOfGas:
@@ -416,12 +436,12 @@ func (k *ktracer) CaptureExit(output []byte, gasUsed uint64, err error) {
 }
 func (k *ktracer) CaptureEnd(output []byte, gasUsed uint64, d time.Duration, err error) {
 	if err != nil && kIsOOG(err) {
-		k.t.oog = true
+		kNote(k.t, err)
 	}
 }
 func (k *ktracer) CaptureFault(pc uint64, op kvm.OpCode, gas, cost uint64, scope *kvm.ScopeContext, depth int, err error) {
 	if kIsOOG(err) {
-		k.t.oog = true
+		kNote(k.t, err)
 	}
 }
 func (k *ktracer) CaptureState(pc uint64, op kvm.OpCode, gas, cost uint64, scope *kvm.ScopeContext, rData []byte, depth int, err error) {
@@ -436,7 +456,7 @@ func (k *ktracer) CaptureState(pc uint64, op kvm.OpCode, gas, cost uint64, scope
 	}
 	if err != nil {
 		if kIsOOG(err) {
-			t.oog = true
+			kNote(t, err)
 		}
 		return
 	}
@@ -499,7 +519,7 @@ func (k *ktracer) CaptureState(pc uint64, op kvm.OpCode, gas, cost uint64, scope
 			case n > refMaxCodeSize:
 				t.bigCode = true // between the two limits: legitimately different
 			case gas-cost < n*createDataGas:
-				t.oog = true
+				t.oog, t.plainOOG = true, true
 			}
 		}
 	}
@@ -628,7 +648,7 @@ func runKVM(w *kworld, p *prog, iset int, count *[256]uint64) (out outcome) {
 	}
 	out.status, out.errKind = classifyK(err)
 	if out.errKind == "out-of-gas" {
-		out.tr.oog = true
+		kNote(&out.tr, err)
 	}
 	out.ret = append([]byte{}, ret...)
 	out.gasLeft = left
@@ -749,13 +769,13 @@ func (g *gtracer) CaptureStart(from gcommon.Address, to gcommon.Address, create 
 }
 func (g *gtracer) CaptureEnd(output []byte, gasUsed uint64, d time.Duration, err error) error {
 	if err != nil && gIsOOG(err) {
-		g.t.oog = true
+		gNote(g.t, err)
 	}
 	return nil
 }
 func (g *gtracer) CaptureFault(env *gvm.EVM, pc uint64, op gvm.OpCode, gas, cost uint64, memory *gvm.Memory, stack *gvm.Stack, rStack *gvm.ReturnStack, contract *gvm.Contract, depth int, err error) error {
 	if gIsOOG(err) {
-		g.t.oog = true
+		gNote(g.t, err)
 	}
 	return nil
 }
@@ -781,7 +801,7 @@ func (g *gtracer) CaptureState(env *gvm.EVM, pc uint64, op gvm.OpCode, gas, cost
 	}
 	if err != nil {
 		if gIsOOG(err) {
-			t.oog = true
+			gNote(t, err)
 		}
 		return nil
 	}
@@ -844,7 +864,7 @@ func (g *gtracer) CaptureState(env *gvm.EVM, pc uint64, op gvm.OpCode, gas, cost
 			case n > refMaxCodeSize:
 				t.bigCode = true // between the two limits: legitimately different
 			case gas-cost < n*createDataGas:
-				t.oog = true
+				t.oog, t.plainOOG = true, true
 			}
 		}
 	}
@@ -971,7 +991,7 @@ func runRef(w *gworld, p *prog, iset int, count *[256]uint64) (out outcome) {
 	}
 	out.status, out.errKind = classifyG(err)
 	if out.errKind == "out-of-gas" {
-		out.tr.oog = true
+		gNote(&out.tr, err)
 	}
 	out.ret = append([]byte{}, ret...)
 	out.gasLeft = left
